@@ -318,8 +318,21 @@ func (g *exprGen) leaf(rt *rapid.T, k refint.Kind) *tw.Expr {
 		if rapid.IntRange(0, 5).Draw(rt, "bigInt") == 0 {
 			return intLit(rapid.SampledFrom(interestingInts).Draw(rt, "lit"))
 		}
+		if rapid.IntRange(0, 7).Draw(rt, "zeroPadded") == 0 {
+			// a decimal literal may be written with leading zeros: same value (never octal)
+			v := rapid.SampledFrom([]int64{0, 7, 8, 9, 10, 12, 64, 77, 100, 123, 1000}).Draw(rt, "padLit")
+			return tw.Int(v, rapid.SampledFrom([]string{"0", "00", "000"}).Draw(rt, "pad")+strconv.FormatInt(v, 10))
+		}
 		return intLit(int64(rapid.IntRange(0, 12).Draw(rt, "lit")))
 	case refint.KFloat:
+		if rapid.IntRange(0, 7).Draw(rt, "zeroPaddedF") == 0 {
+			f := rapid.SampledFrom([]float64{0.5, 1.5, 8.25, 10.0, 77.125}).Draw(rt, "padFlit")
+			text := strconv.FormatFloat(f, 'f', -1, 64)
+			if !containsDot(text) {
+				text += ".0"
+			}
+			return tw.Float(f, rapid.SampledFrom([]string{"0", "00"}).Draw(rt, "padF")+text+rapid.SampledFrom([]string{"", "0", "00"}).Draw(rt, "padFT"))
+		}
 		return floatLit(rapid.SampledFrom(interestingFloats).Draw(rt, "flit"))
 	case refint.KStr:
 		return strLit(rt, rapid.SampledFrom(plainStrings).Draw(rt, "slit"))
@@ -486,8 +499,20 @@ func genSpecValue(depth int, unsupported bool) *rapid.Generator[*spec.Value] {
 			// typed slice
 			n := rapid.IntRange(0, 3).Draw(rt, "tsliceLen")
 			first := genSpecValue(depth-1, false).Draw(rt, "tsliceFirst")
+			if rapid.IntRange(0, 3).Draw(rt, "ptrElems") == 0 {
+				first = spec.Ptr(first)
+			}
 			items := make([]*spec.Value, n)
+			shared := first.T.K == spec.TPtr && !first.Nil && rapid.Bool().Draw(rt, "sharedPtr")
+			if shared {
+				// one Go pointer reachable from several elements (shared, not cyclic)
+				first.Share = fmt.Sprintf("p%d", rapid.IntRange(0, 1<<30).Draw(rt, "shareID"))
+			}
 			for i := range items {
+				if shared && rapid.IntRange(0, 2).Draw(rt, "sameAgain") > 0 {
+					items[i] = first
+					continue
+				}
 				items[i] = cloneSpecWithSameType(rt, first)
 			}
 			return spec.Slice(first.T, items...)
